@@ -386,7 +386,7 @@ def constsLine : String :=
   " stimer.planed=" ++ tyName 32 true ++ " stimer_finish=" ++ tyName 64 false ++ " stimer_check=" ++ tyName 32 true ++
   " mgr[" ++ mgrTypes 64 true ++ "] i32[" ++ mgrTypes 32 true ++ "] u32[" ++ mgrTypes 32 false ++ "]" ++
   " u32s[time=" ++ tyName 32 false ++ ",diff=" ++ tyName 32 true ++ ",never=2147483647]" ++
-  " default=int64 delegate=" ++ toString (3 * 8)
+  " default=int64"
 
 /-- the scenario the harness runs before `main()`: plan (0,3) and (0,5), `exec(7)`, `minimal_interval(7)`, `empty()`,
 unplan both, `minimal_interval(7)`, two stimer checks, lock count -/
